@@ -280,7 +280,13 @@ pub fn emit(e: &mut Emitter, seed: u64, thorough: bool) {
         };
         let hiding = r.below(3) == 0;
         // admissibility: every commit-phase layer must still have at least 2^cap_height leaves
-        let params = config.fri_params(degree_bits, hiding);
+        let params = match std::panic::catch_unwind(|| config.fri_params(degree_bits, hiding)) {
+            Ok(p) => p,
+            Err(_) => {
+                e.count("inadmissible-config-strategy-panics");
+                continue;
+            }
+        };
         if params.total_arities() > degree_bits || degree_bits + rate_bits < cap_height + params.total_arities() {
             e.count("inadmissible-config-skipped");
             continue;
